@@ -356,8 +356,7 @@ def run(chk):
     loader.install_shim()
     bl = loader.load('conversion.beamline')
     gb = loader.load('conversion.graph.beamline')
-    chk.functions = loader.describe([bl.L1, bl.L2, bl.straight_incident_beam, bl.straight_scattered_beam, bl.total_beam_length,
-                                     bl.total_straight_beam_length_no_scatter, bl.two_theta, gb.beamline])
+    chk.functions = loader.describe_exprs(['bl.L1', 'bl.L2', 'bl.straight_incident_beam', 'bl.straight_scattered_beam', 'bl.total_beam_length', 'bl.total_straight_beam_length_no_scatter', 'bl.two_theta', 'gb.beamline'], {**globals(), **locals()})
     run_jobs(chk, job_euclid, [(True, None), (False, None), (True, 2), (False, 2)])
     run_jobs(chk, job_two_theta, ['definition', 'units', 'symmetry', 'rescale', 'rotation', 'stability-canary'])
     run_jobs(chk, job_stability, [False, True])
